@@ -259,6 +259,16 @@ def canon(res):
     return "raised " + res["exc"]
 
 
+def same_outcome(c: str, mm: str) -> bool:
+    """canonical results agree: identical, or both are a propagated exception (the Python exception *type* is not
+    compared — a refactor that turns a KeyError into a NodeError, or an odd input such as a NUL byte in a file name
+    that makes open() raise ValueError instead of OSError, is not a difference); a hang is never equal to a raise"""
+    if c == mm:
+        return True
+    hang = "raised OUT-OF-FUEL"
+    return c.startswith("raised ") and mm.startswith("raised ") and c != hang and mm != hang
+
+
 def canon_model(ans: str) -> str:
     if ans.startswith("ok"):
         return ans.split(" T=")[0]
